@@ -77,6 +77,23 @@ Section VauthProofs.
     proofs (ica_packet st p ok l) = proofs st /\ bal (ica_packet st p ok l) = bal st /\ supply (ica_packet st p ok l) = supply st.
   Proof. intros. unfold ica_packet. destruct (fresh _ _); cbn; auto. Qed.
 
+  Lemma submit_msg_cases : forall st sub acc g st' r,
+    submit_msg st sub acc g = (st', r) ->
+    match r with
+    | SOk =>
+        s_lower g = true /\ proofs st acc = None /\ COST <= bal st sub /\
+        proofs st' = upd (proofs st) acc (Some g) /\ bal st' = upd (bal st) sub (bal st sub - COST) /\
+        supply st' = supply st - COST /\ vested st' = vested st /\ acct st' = acct st
+    | _ => st' = st
+    end.
+  Proof.
+    intros st sub acc g st' r. unfold submit_msg, has.
+    destruct (proofs st acc) eqn:Hp; [intros H; inversion H; reflexivity|].
+    destruct (bal st sub <? COST) eqn:Hc; [intros H; inversion H; reflexivity|].
+    apply Z.ltb_ge in Hc.
+    destruct (s_lower g) eqn:Hl; cbn [negb]; intros H; inversion H; subst; cbn [proofs bal supply vested acct]; auto 10.
+  Qed.
+
   Lemma step_proofs : forall st o a g,
     proofs (fst (step st o)) a = Some g ->
     proofs st a = Some g \/ (proofs st a = None /\ verifies a (s_bytes g) = true /\ s_lower g = true /\ s_prefix g = true /\ s_hex_ok g = true).
@@ -99,6 +116,13 @@ Section VauthProofs.
       replace s with (fst (vesting_tx st vb rest sh)) by (rewrite E; reflexivity).
       destruct (vesting_tx_keeps st vb rest sh) as (-> & _). auto.
     - cbn [fst]. destruct (ica_packet_keeps st p signers_ok l) as (-> & _). auto.
+    - destruct (msg_valid verifies sub acc acc_ok g0) eqn:Hv; [|cbn; auto].
+      destruct (submit_msg st sub acc g0) as [st' r] eqn:Hs. cbn [fst].
+      pose proof (submit_msg_cases _ _ _ _ _ _ Hs) as Hc. destruct r; try (subst st'; auto; fail).
+      destruct Hc as (Hl & Hn & _ & Hp & _). rewrite Hp. unfold upd.
+      destruct (N.eqb a acc) eqn:E; [|auto]. apply N.eqb_eq in E. subst a.
+      intros H. inversion H; subst g0. right. split; [exact Hn|].
+      destruct (msg_valid_parts _ _ _ _ Hv) as (_ & _ & Hpre & Hh & Hver). auto.
     - cbn. auto.
     - cbn. auto.
   Qed.
@@ -127,6 +151,10 @@ Section VauthProofs.
       replace s with (fst (vesting_tx st vb rest sh)) by (rewrite E; reflexivity).
       destruct (vesting_tx_keeps st vb rest sh) as (-> & _). exact Hp.
     - cbn [fst]. destruct (ica_packet_keeps st p signers_ok l) as (-> & _). exact Hp.
+    - destruct (msg_valid verifies sub acc acc_ok g0) eqn:Hv; [|cbn; exact Hp].
+      destruct (submit_msg st sub acc g0) as [st' r] eqn:Hs. cbn [fst].
+      pose proof (submit_msg_cases _ _ _ _ _ _ Hs) as Hc. destruct r; try (subst st'; exact Hp).
+      destruct Hc as (_ & Hn & _ & Hp' & _). rewrite Hp'. rewrite upd_other; [exact Hp|]. intros ->. congruence.
   Qed.
 
   Lemma proof_final : forall l st a g, proofs st a = Some g -> proofs (run st l) a = Some g.
@@ -249,6 +277,10 @@ Section VauthProofs.
       apply memN_in in H. apply in_targets in H as (r & k & Hin).
       destruct (vesting_handler_needs_proof default_disabled (env_at st vb rest) sh r k a default_has_vesting Hin) as [_ Hp].
       exact Hp.
+    - destruct (msg_valid verifies sub acc acc_ok g) eqn:Hv; [|cbn; auto].
+      destruct (submit_msg st sub acc g) as [st' r] eqn:Hs. cbn [fst].
+      pose proof (submit_msg_cases _ _ _ _ _ _ Hs) as Hc. destruct r; try (subst st'; auto; fail).
+      destruct Hc as (_ & _ & _ & _ & _ & _ & Hve & _). rewrite Hve. auto.
   Qed.
 
   Definition inv (st : vstate) : Prop := forall a, vested st a = true -> has st a = true.
@@ -283,6 +315,25 @@ Section VauthProofs.
     { unfold executed_tx. rewrite Hacc. exact Hin. }
     destruct (vesting_handler_needs_proof default_disabled (env_at st vb rest) sh r k a default_has_vesting Hex) as [_ Hp].
     cbn in Hp. rewrite Hn in Hp. discriminate.
+  Qed.
+
+  (* in EVERY mode (CheckTx, ReCheckTx, simulation, delivery): a transaction the ante handler accepts carries vesting-creation
+     messages only at top level and only for targets with a stored proof *)
+  Lemma any_mode_needs_proof : forall m st vb rest sh d k a,
+    accepted default_disabled m (env_at st vb rest) sh = true ->
+    occurs d (MVesting k a) (msgs sh) -> d = 0%nat /\ has st a = true.
+  Proof.
+    intros m st vb rest sh d k a Hacc Hocc.
+    destruct (has_single_eth (msgs sh)) eqn:Hl.
+    - exfalso. apply has_single_eth_iff in Hl as [q Hq]. rewrite Hq in Hocc.
+      inversion Hocc; subst.
+      + destruct H as [H|[]]. discriminate.
+      + destruct H as [H|[]]. discriminate.
+    - destruct (cosmos_no_disabled_any_depth _ _ _ _ _ _ Hacc Hl Hocc) as (_ & _ & _ & Hdis & _ & Hv).
+      destruct d as [|d].
+      + split; [reflexivity|]. exact (Hv eq_refl k a eq_refl).
+      + exfalso. assert (Hm : memN (tid (MVesting k a)) default_disabled = false) by (apply Hdis; auto; lia).
+        cbn [tid] in Hm. rewrite default_has_vesting in Hm. discriminate.
   Qed.
 
   (* ICA packets break it *)
@@ -325,6 +376,10 @@ Section VauthProofs.
       replace s with (fst (vesting_tx st vb rest sh)) by (rewrite E; reflexivity).
       destruct (vesting_tx_keeps st vb rest sh) as (_ & _ & ->). lia.
     - cbn [fst snd]. destruct (ica_packet_keeps st p signers_ok l) as (_ & _ & ->). lia.
+    - destruct (msg_valid verifies sub acc acc_ok g) eqn:Hv; [|cbn; lia].
+      destruct (submit_msg st sub acc g) as [st' r] eqn:Hs. cbn [fst snd].
+      pose proof (submit_msg_cases _ _ _ _ _ _ Hs) as Hc. destruct r; try (subst st'; lia).
+      destruct Hc as (_ & _ & _ & _ & _ & Hsup & _). lia.
     - cbn. lia.
     - cbn. lia.
   Qed.
